@@ -689,8 +689,8 @@ def struct_pack(I: Any, args: List[Term], st: Any, ctx: Any, node: ast.AST) -> T
                 st.may_raise("struct.error", ("outofrange", val, lo, hi), where)
         ks = range(size) if order == "<" else range(size - 1, -1, -1)
         for k in ks:
-            if size == 1 and not signed and not is_c(val):
-                atoms.append(("fmt", "02x", val))        # the one byte of a value in 0..255 is the value: its hex is '{:02x}'
+            if size == 1 and not signed and not is_c(val) and rng is not None and rng[0] is not None and rng[1] is not None and 0 <= rng[0] and rng[1] <= 255:
+                atoms.append(("fmt", "02x", val))        # the one byte of a value known to lie in 0..255 is the value: its hex is '{:02x}'
                 continue
             b = T.byte_of_int(val, k, size)
             atoms.extend(b or [("hbi", val, k)])
